@@ -2,6 +2,7 @@ package main
 
 import (
 	"fmt"
+	"reflect"
 	"strings"
 
 	"github.com/philpearl/plenc/plenccodec"
@@ -224,6 +225,10 @@ func runC14(r *Runner, g *Gen, tier string) string {
 			t = g.structType(3)
 			if g.r.P(10) {
 				t = named(g.r.Pick("Inner", "Outer", "Inner2", "Emb")) // static, non-recursive named structs
+				if g.r.P(30) {
+					// instantiated generic types: Page[int] and Page[…Inner2] are different types with different names
+					t = FromRT(g.r.PickRT(reflect.TypeOf(Page[int]{}), reflect.TypeOf(Page[Inner2]{}), reflect.TypeOf(Pair[string, Page[int]]{})), 6)
+				}
 			}
 		}
 		r.Do(codecOp("desc", cfg, t, ""), t.K == "struct", "desc")
